@@ -30,6 +30,9 @@ type lifeScen struct {
 	SM     bool        `json:"sm"`
 	KaMs   int         `json:"ka"`
 	Rounds []lifeRound `json:"rounds"`
+	// StopInOutage: after the last round the server goes away for good and the application calls Stop()
+	// while the reconnection loop is retrying
+	StopInOutage bool `json:"stopinoutage,omitempty"`
 }
 
 type lifeSrv struct {
@@ -46,6 +49,7 @@ type lifeSrv struct {
 	sm      bool
 	upCh    chan int
 	closing int32
+	pings   map[int]int
 }
 
 func (s *lifeSrv) listen() error {
@@ -230,7 +234,9 @@ func (s *lifeSrv) sessionElem(conn *srv.Conn, n int, e *srv.Elem) {
 		s.w.Emit(tr.Rec{"ev": "clisend", "n": n, "tag": e.Attr["id"]})
 	}
 	if e.Kind == "ws" {
-		s.w.Emit(tr.Rec{"ev": "ping", "n": n})
+		s.mu.Lock()
+		s.pings[n]++
+		s.mu.Unlock()
 	}
 }
 
@@ -250,7 +256,7 @@ func lifeRunOne(w *tr.Writer, tid int, raw json.RawMessage, c *common) error {
 	if err != nil {
 		return err
 	}
-	s := &lifeSrv{addr: l0.Addr().String(), w: w, sm: sc.SM, upCh: make(chan int, 16), l: l0}
+	s := &lifeSrv{addr: l0.Addr().String(), w: w, sm: sc.SM, upCh: make(chan int, 16), l: l0, pings: map[int]int{}}
 	go s.acceptLoop()
 
 	router := xmpp.NewRouter()
@@ -283,6 +289,7 @@ func lifeRunOne(w *tr.Writer, tid int, raw json.RawMessage, c *common) error {
 
 	runRet := make(chan error, 1)
 	stopped := false
+	when := "up"
 	finish := func() {
 		// Stop must make Run return
 		if !stopped {
@@ -298,9 +305,9 @@ func lifeRunOne(w *tr.Writer, tid int, raw json.RawMessage, c *common) error {
 		}
 		select {
 		case err := <-runRet:
-			w.Emit(tr.Rec{"ev": "runret", "err": err != nil, "timely": true})
+			w.Emit(tr.Rec{"ev": "runret", "err": err != nil, "timely": true, "when": when})
 		case <-time.After(3 * time.Second):
-			w.Emit(tr.Rec{"ev": "runret", "err": false, "timely": false})
+			w.Emit(tr.Rec{"ev": "runret", "err": false, "timely": false, "when": when})
 		}
 		atomic.StoreInt32(&s.closing, 1)
 		s.l.Close()
@@ -396,9 +403,9 @@ func lifeRunOne(w *tr.Writer, tid int, raw json.RawMessage, c *common) error {
 				// the very first Connect fails: Run returns an error, there is no session to re-establish
 				select {
 				case err := <-runRet:
-					w.Emit(tr.Rec{"ev": "runret", "err": err != nil, "timely": true})
+					w.Emit(tr.Rec{"ev": "runret", "err": err != nil, "timely": true, "when": "first-connect-refused"})
 				case <-time.After(3 * time.Second):
-					w.Emit(tr.Rec{"ev": "runret", "err": false, "timely": false})
+					w.Emit(tr.Rec{"ev": "runret", "err": false, "timely": false, "when": "first-connect-refused"})
 				}
 				openL()
 				stopped = true
@@ -433,6 +440,18 @@ func lifeRunOne(w *tr.Writer, tid int, raw json.RawMessage, c *common) error {
 				}
 			}
 			time.Sleep(30 * time.Millisecond)
+			if sc.KaMs > 0 {
+				// the keepalive of THIS session: whitespace must arrive on the new connection at the interval
+				s.mu.Lock()
+				n0, p0 := s.curN, s.pings[s.curN]
+				s.mu.Unlock()
+				win := 20 * sc.KaMs
+				time.Sleep(time.Duration(win) * time.Millisecond)
+				s.mu.Lock()
+				p1 := s.pings[n0]
+				s.mu.Unlock()
+				w.Emit(tr.Rec{"ev": "kaobs", "n": n0, "window": win, "iv": sc.KaMs, "pings": p1 - p0})
+			}
 		}
 		// let stray activity (extra connections, duplicate callbacks) show up
 		time.Sleep(150 * time.Millisecond)
@@ -444,12 +463,28 @@ func lifeRunOne(w *tr.Writer, tid int, raw json.RawMessage, c *common) error {
 			break
 		}
 	}
+	if sc.StopInOutage && !stopped {
+		w.Emit(tr.Rec{"ev": "round", "i": len(sc.Rounds) + 1, "drop": "abrupt", "attempts": []string{"refuse", "refuse"}, "resume": "accept"})
+		att0 := run.get("sm.attempt")
+		s.l.Close()
+		s.mu.Lock()
+		prev, prevN := s.cur, s.curN
+		s.mu.Unlock()
+		w.Emit(tr.Rec{"ev": "drop", "n": prevN, "how": "abrupt"})
+		prev.Reset()
+		ok := run.waitFor(4*time.Second, func(c map[string]int) bool { return c["sm.attempt"] >= att0+2 })
+		w.Emit(tr.Rec{"ev": "refused", "want": 2, "got": run.get("sm.attempt") - att0, "timely": ok})
+		w.Emit(tr.Rec{"ev": "stopinoutage"})
+		when = "outage"
+		s.listen() // so that finish() can close it; nothing connects any more
+	}
 	finish()
 	return nil
 }
 
 func runLife(args []string) error {
 	c, fs := parseCommon("life", args)
+	kaOnly := fs.Bool("kaonly", false, "run only the keepalive variant of each scenario (C18)")
 	fs.Parse(args)
 	if c.worker {
 		return runWorker(c, lifeRunOne, func() error { sessInstallHooks(); return nil })
@@ -459,8 +494,39 @@ func runLife(args []string) error {
 		return err
 	}
 	var scens []tidScen
+	tid := 0
 	for i, ln := range lines {
-		scens = append(scens, tidScen{i + 1, ln})
+		tid++
+		if !*kaOnly {
+			scens = append(scens, tidScen{tid, ln})
+		}
+		if i%9 == 0 || *kaOnly {
+			var sc lifeScen
+			if json.Unmarshal(ln, &sc) == nil {
+				ok := true
+				for _, rd := range sc.Rounds {
+					for _, a := range rd.Attempts {
+						if a == "auth" || a == "authtext" {
+							ok = false
+						}
+					}
+				}
+				if ok {
+					v := sc
+					v.KaMs = 15 // every session has its own keepalive at the interval
+					b, _ := json.Marshal(v)
+					tid++
+					scens = append(scens, tidScen{1000000 + tid, b})
+					if !*kaOnly {
+						v = sc
+						v.StopInOutage = true
+						b, _ = json.Marshal(v)
+						tid++
+						scens = append(scens, tidScen{1000000 + tid, b})
+					}
+				}
+			}
+		}
 	}
 	for _, s := range scens {
 		c.recordScen(s.Tid, s.Scen)
